@@ -297,6 +297,11 @@ def gen_strings(cx):
                 cls.append(b"\xe9" * k + b"a" * (n - k))
                 cls.append(b"a" * (n - k) + b"\x18" * k)
     cls += [b"\xfe\xff", b"\xff\xfe", b"\xef\xbb\xbf", b"\xfe", b"\xef\xbb", b"\xc3\xbe\xc3\xbf", b"12 0 R", b"u:x", b"b:00", b"/Name", b"n:/x"]
+    if not cx.quick:   # a sample of the 3- and 4-byte payloads (behind a mark: 1- and 2-byte remainders of every value)
+        for _ in range(150000):
+            cls.append(bytes(rng.randrange(256) for _ in range(3)))
+        for bom in (b"\xfe\xff", b"\xff\xfe", b"\xef\xbb\xbf"):
+            cls += [bom + bytes([a, b]) for a in range(256) for b in range(0, 256, 3)]
     seen = set(out)
     for c in cls:
         if c not in seen:
@@ -449,6 +454,9 @@ def gen_names(cx):
                 cls.append(b"/" + bytes([lead, c1]) + b"\x80" * ntail)
     for _ in range(400 if cx.quick else 10000):
         cls.append(b"/" + b"".join(rng.choice(UTF8_PIECES + [b"#", b"/", b"(", b" ", b"%"]) for _ in range(rng.randint(2, 5))))
+    if not cx.quick:
+        for _ in range(150000):
+            cls.append(b"/" + bytes(rng.choice((rng.randrange(256), rng.randrange(0x80, 0x100))) for _ in range(3)))
     seen = set(out)
     for c in cls:
         if c not in seen:
